@@ -1,5 +1,6 @@
 import Blue.Generated.Consts
 import Blue.Model.ProtoMsg
+import Blue.Model.Varint
 /-! The tie between the prototk / buffertk constants regenerated from the Rust source
     (`Blue.Generated`, written by `translate/extract.py` on every run) and the constants the
     hand-written wire and message models use (property C15).  Kept apart from `ConstsTie.lean` so
@@ -49,6 +50,40 @@ theorem varint_max_bytes (bs : List Nat) :
     Blue.Wire.decVarint bs = Blue.Wire.decVarintAux Blue.Generated.varintMaxBytes 0 0 bs := rfl
 
 theorem result_tags : Blue.Generated.resultTags = [10, 18] := by decide
+
+/-- the shape of `<v64 as Unpackable>::unpack` as the source has it: the length below which
+    `unpack_slow` is taken, the two literals of its byte cap, the (index, size) arms of the
+    unrolled dispatch -/
+def varintSourceShape : Blue.Varint.Shape :=
+  ⟨Blue.Generated.varintFastMinLen,
+   (Blue.Generated.varintSlowCap.getD 0 0, Blue.Generated.varintSlowCap.getD 1 0),
+   Blue.Generated.varintFastArmIndices.zip Blue.Generated.varintFastArmSizes⟩
+
+/-- the model's `Blue.Varint.shape` is the source's -/
+theorem varint_shape : varintSourceShape = Blue.Varint.shape
+    ∧ Blue.Generated.varintSlowCap.length = 2
+    ∧ Blue.Generated.varintFastArmIndices.length = Blue.Generated.varintFastArmSizes.length
+    ∧ Blue.Generated.varintFastArmThresholds = Blue.Generated.varintFastArmIndices.map (fun _ => Blue.Varint.CONT) :=
+  ⟨rfl, by decide, by decide, by decide⟩
+
+/-- the hypothesis of `Blue.Varint.unpackWith_eq_decVarint`: the dispatch indexes `buf[9]`, so the
+    slow decoder must take every buffer shorter than ten bytes (fails for `buf.len() < 9`) -/
+theorem varint_fast_min_len : 10 ≤ Blue.Generated.varintFastMinLen := by decide
+
+/-- the literals of `unpack_slow` (`& 128`, `& 127`, `shl += 7`, `& 128`, `& 127`) and of
+    `unpack_size` (`7 * (SZ - 1)`, `offset = 0`, `- 0x80`, `offset += 7`) in source order -/
+theorem varint_code_literals :
+    Blue.Generated.varintCodeLiterals
+      = [Blue.Varint.CONT, Blue.Varint.LOW, Blue.Varint.STEP, Blue.Varint.CONT, Blue.Varint.LOW,
+         Blue.Varint.STEP, 0, Blue.Varint.CONT, Blue.Varint.STEP] := by decide
+/-- the literals of `v64::pack_sz` (`count = 1`, `>>= 7`, `>>= 7`, `+= 1`; the model's
+    `varintSz` divides by `2 ^ 7` and counts from 1) and of `v64::pack` (`& 0x7f`, `>>= 7`,
+    `idx = 1`, `|= 128`, `& 0x7f`, `idx += 1`, `>>= 7`) in source order -/
+theorem varint_pack_literals :
+    Blue.Generated.varintPackLiterals
+      = [1, Blue.Varint.STEP, Blue.Varint.STEP, 1, Blue.Varint.LOW, Blue.Varint.STEP, 1, Blue.Varint.CONT,
+         Blue.Varint.LOW, 1, Blue.Varint.STEP]
+    ∧ 2 ^ Blue.Varint.STEP = 128 := by decide
 end C15
 
 end Blue.ConstsTie
